@@ -882,7 +882,7 @@ func registerReflect(p *Program) {
 			rpanic("IsZero", "zero Value")
 		}
 		if rv.N != nil {
-			unsupported("IsZero on symbolic node")
+			return m.nodeIsZero(rv)
 		}
 		return m.isZero(rv.T, rv.val())
 	})
@@ -1152,4 +1152,59 @@ func (m *Machine) jsonNumberText(n *Node) *smt.Term {
 		}
 	}
 	return t
+}
+
+// nodeIsZero implements reflect.Value.IsZero on a Value backed by a symbolic JSON node.
+func (m *Machine) nodeIsZero(rv *RV) Value {
+	c := m.Ctx
+	n := rv.N
+	if rv.Wrapped {
+		// Kind Interface: zero iff the interface is nil (JSON null held as a nil interface)
+		return unTerm(m.simp(c.And(n.TagIs(TagNull), c.Eq(n.Wrap, c.Int(0)))))
+	}
+	if rv.Ptr > 0 {
+		return unTerm(m.simp(n.TagIs(TagNull))) // a pointer is zero iff nil
+	}
+	tag := int(asInt64(m.concretize(SymInt{n.Tag}, "IsZero-tag")))
+	switch tag {
+	case TagNull:
+		return true
+	case TagBool:
+		return unTerm(m.simp(c.Not(n.B)))
+	case TagString:
+		return unTerm(m.simp(c.Eq(m.StrBytes(n.Str), c.Int(0))))
+	case TagNumber:
+		r, _ := m.numValue(n)
+		z := c.Eq(r, c.RatInt(0))
+		if n.NZ != nil {
+			z = c.And(z, c.Or(c.Not(n.repIn(repIsFloat)), c.Not(n.NZ))) // IsZero compares float bits: -0 is not zero
+		}
+		if n.JN != nil {
+			// a json.Number is a string: zero iff its text is empty, which the model never produces
+			z = c.And(z, c.Ne(n.Rep, c.Int(RepJSONNumber)))
+		}
+		return unTerm(m.simp(z))
+	case TagArray:
+		if m.nodeCRep(n) == CRepAlt {
+			// a Go array is zero iff all its elements are
+			l := int(asInt64(m.concretize(SymInt{n.Len}, "IsZero-len")))
+			var cs []*smt.Term
+			for i := 0; i < l; i++ {
+				switch z := m.nodeIsZero(&RV{N: n.Elem(i), Wrapped: true}).(type) {
+				case bool:
+					if !z {
+						return false
+					}
+				case *smt.Term:
+					cs = append(cs, z)
+				}
+			}
+			return unTerm(c.And(cs...))
+		}
+		return false // slices and maps of the instance domain are never nil
+	case TagObject:
+		return false
+	}
+	unsupported("IsZero on symbolic node")
+	return nil
 }
